@@ -30,7 +30,7 @@ from ..cfg import cfg_of
 from ..fold import Folder, RegexConst, Unfoldable, group_count
 from ..loader import AnalysisError, FuncInfo, dotted, norm, walk_no_nested
 from ..report import Ctx
-from ._c15_helpers import TEXT_KEYS, CFn, CMade, CObj, Concrete, ConcreteRaise, Flow, Leaf, NotConcrete, Scope, codec_kind, escapes, expand, slice_peel, table_values, text_class
+from ._c15_helpers import TEXT_KEYS, CExt, CFn, CMade, CObj, Concrete, ConcreteRaise, Flow, Leaf, NotConcrete, Scope, codec_kind, escapes, expand, slice_peel, table_values, text_class
 
 LEVEL_TEXT = (
     "Static decision of structural clauses of C15 on /repo's current source: (R15.1) for every URL component, the "
@@ -41,7 +41,10 @@ LEVEL_TEXT = (
     "RFC 3986 characters safe, the host through IDNA->ASCII, each into its own urlunsplit slot; the URL "
     "reconstruction quotes the terminators of each value it joins and, for the percent-decoded path values, '%' "
     "itself, and the builder's urlencode keeps & = + # % unsafe; (R15.3) uri_to_iri sends every "
-    "component through an unquoter into its own slot, the partial unquoter passes kept escapes through untouched and "
+    "component through an unquoter into its own slot (a host step that is not the single direct call / codec pair - a "
+    "conditional arm that keeps the name, a test or handler in the caller, a helper taking the split result - is decided "
+    "in R15.2 / R15.3 / R15.9 by evaluating uri_to_iri / iri_to_uri as a whole from the source on URLs made of a scheme "
+    "and a representative host name), the partial unquoter passes kept escapes through untouched and "
     "decodes the rest as UTF-8 with invalid bytes re-quoted by the registered handler; (R15.4) the two WSGI dances are "
     "crosswise inverse compositions of UTF-8 and latin-1; (R15.5) the environ builder and the dev server store only "
     "tunnelled text in PATH_INFO / SCRIPT_NAME / QUERY_STRING and the request-side readers let none of it escape "
@@ -468,7 +471,8 @@ def _split_result_attr(flow: Flow, leaf: Leaf) -> str | None:
     n = leaf.node
     if leaf.kind != "attr" or not isinstance(n, ast.Attribute) or not isinstance(n.value, ast.Name):
         return None
-    src = flow.leaves(n.value, flow.attr_scope.get(id(n)))
+    org = flow.attr_origin.get(id(n))
+    src = [org] if org is not None else flow.leaves(n.value, flow.attr_scope.get(id(n)))
     if src and all(s.kind == "call" and s.key == "urllib.parse.urlsplit" and not s.ops for s in src):
         return n.attr
     return None
@@ -654,6 +658,96 @@ def _route(ctx: Ctx, rule: str, fi: FuncInfo, flow: Flow, elts: list[ast.AST], a
 # R15.3  uri_to_iri
 
 
+_HOST_WHOLE: list[str] = []  # reasons why uri_to_iri's host step is judged on uri_to_iri as a whole (R15.9)
+_WHOLE_CACHE: dict[tuple[int, str], dict[str, tuple[list[str], int]]] = {}
+_ENCODE_EDGE_HOSTS = ["a..b", "x" * 64 + ".org", ".example"]  # ASCII names python's idna codec refuses (empty / too long label)
+
+
+def _whole_host_eval(ctx: Ctx, fi: FuncInfo, stand_ins: t.Iterable[str], decode: bool) -> dict[str, tuple[list[str], int]]:
+    """what `fi` (uri_to_iri / iri_to_uri) as a whole makes of a URL that consists of a scheme and a host name: the
+    function is evaluated from its source with `urlsplit` answering a modelled split result (hostname = the name, no
+    port, no user info, empty path / query / fragment) and `urlunsplit` handing back the five values; the unquoter
+    tables (`stand_ins`, judged by R15.1 / R15.3 on their own) are identities on the empty components.  This decides
+    the host step however it is spread over conditionals, helpers and handlers of the function.
+    Returns group -> (names that come out wrong, as text; number of names evaluated)."""
+    key = (id(ctx.repo), fi.fq)
+    if key in _WHOLE_CACHE:
+        return _WHOLE_CACHE[key]
+    import urllib.parse as _up
+
+    idn, bad_names = _host_families()
+    try:
+        enc = {h: h.encode("idna").decode("ascii") for h in idn + bad_names}
+    except UnicodeError as x:
+        raise AnalysisError(f"{fi.fq}: this python's idna codec does not encode a representative name: {x}")
+
+    def py_encode(h: str):
+        try:
+            return h.encode("idna").decode("ascii")
+        except UnicodeError:
+            return _Raises
+
+    if decode:
+        groups = {"inv": [(enc[h], h) for h in idn], "kept": [(enc[h], h) for h in bad_names], "plain": [(h, h) for h in _PLAIN_HOSTS], "done": [(h, h) for h in idn]}
+    else:
+        groups = {"enc": [(h, enc[h]) for h in idn + bad_names], "plain": [(h, py_encode(h)) for h in _PLAIN_HOSTS + _ENCODE_EDGE_HOSTS], "done": [(enc[h], enc[h]) for h in idn]}
+    m = fi.module
+    fn = CFn(fi.node, m)
+
+    def through(host: str, full: bool):
+        ip = Concrete(ctx.repo)
+        for fq, kind in _CODEC_WATCH.items():
+            ip.watch[fq] = _codec_fn(kind)
+        lit = f"[{host}]" if ":" in host else host
+        if full:  # the same name between user info and a port: the host step must not depend on where the name stands
+            lit = f"u:p@{lit}:8080"
+        split = CObj(None, dict(scheme="http", netloc=lit, hostname=host, port=8080 if full else None, username="u" if full else None, password="p" if full else None, path="", query="", fragment=""))
+        ip.watch["urllib.parse.urlsplit"] = lambda args, kw: split
+        ip.watch["urllib.parse.urlunsplit"] = lambda args, kw: tuple(ip.iterate(args[0], None)) if args and not kw else _no("urlunsplit call")
+        ip.watch["urllib.parse.quote"] = lambda args, kw: _up.quote(*args, **kw) if args and all(isinstance(v, str) for v in list(args) + list(kw.values())) else _no("quote of a value the host name does not determine")
+        ip.watch["wzsa.identity"] = lambda args, kw: args[0] if len(args) == 1 and isinstance(args[0], str) and not kw else _no("unquoter call")
+        for nm in stand_ins:
+            ip._modvals[(m.name, nm)] = CExt("wzsa.identity")
+        try:
+            out = ip.call(fn, [f"http://{lit}"], {})
+        except ConcreteRaise as x:
+            return _Raises if x.what in ("UnicodeError", "UnicodeEncodeError", "UnicodeDecodeError") else f"raises {x.what}"
+        if not isinstance(out, tuple) or len(out) != 5 or not isinstance(out[1], str):
+            raise NotConcrete(f"the evaluated result `{out!r:.60}` is not the five values handed to urlunsplit")
+        return out[1]
+
+    res: dict[str, tuple[list[str], int]] = {}
+    try:
+        for g, cases in groups.items():
+            wrong = []
+            for host, want in cases:
+                for full in (False, True):
+                    got = through(host, full)
+                    want_lit = want if want is _Raises else (f"[{want}]" if ":" in want else want)
+                    if full and want is not _Raises:
+                        want_lit = f"u:p@{want_lit}:8080"
+                    if got != want_lit:
+                        wrong.append(f"{fi.name} of {'http://u:p@HOST:8080' if full else 'http://HOST'} with HOST = {host!r} has the netloc {'raise UnicodeError' if got is _Raises else repr(got)}, not {'raise UnicodeError' if want is _Raises else repr(want_lit)}")
+            res[g] = (wrong, 2 * len(cases))
+    except NotConcrete as x:
+        raise AnalysisError(f"{fi.fq}: the host step is not in the direct shape and the function cannot be evaluated as a whole from the source: {x.why}" + (f" (line {getattr(x.node, 'lineno', '?')})" if x.node is not None else ""))
+    _WHOLE_CACHE[key] = res
+    return res
+
+
+_Raises = "<raises UnicodeError>"
+
+
+def _no(what: str):
+    raise NotConcrete(what)
+
+
+def _whole_verdict(res: dict[str, tuple[list[str], int]]) -> tuple[bool, str]:
+    wrong = [w for ws, _ in res.values() for w in ws]
+    n = sum(k for _, k in res.values())
+    return (not wrong), (f"{n} host names evaluated through the whole function: as required" if not wrong else f"{len(wrong)} of {n} host names evaluated through the whole function come out wrong: " + "; ".join(wrong[:2]))
+
+
 _HOST_DECODERS: list[str] = []  # functions of urls.py that uri_to_iri applies to parts.hostname (found by R15.3, judged by R15.9)
 
 
@@ -661,21 +755,28 @@ def _r15_3(ctx: Ctx, folder: Folder, mk: FuncInfo, u2i: FuncInfo, unq: dict[str,
     flow = Flow(ctx.repo, u2i)
     sink, elts = _unsplit_slots(flow, u2i)
     m = u2i.module
+    _HOST_WHOLE[:] = []
     use: dict[str, str] = {}
     idna_fq: list[str] = []
 
     def accept(attr: str, l: Leaf):
         if attr in ("scheme", "port"):
             return (not l.ops or attr == "port"), f"parts.{attr} as `{l.text()}`"
+        if attr == "hostname":
+            tgt = (l.ops[0].target or "") if len(l.ops) == 1 and l.ops[0].kind == "call" else ""
+            mn, _, nm = tgt.rpartition(".")
+            if tgt and mn == m.name and nm in m.functions:
+                idna_fq.append(nm)
+                return True, f"hostname through {nm}"
+            # not the direct shape (an arm that keeps the name as it is, a decoder that was looked through, codec
+            # calls in the function itself): whether every name still comes out decoded is a question about values
+            ok, fact = _whole_verdict(_whole_host_eval(ctx, u2i, sorted(unq), True))
+            _HOST_WHOLE.append(f"parts.hostname also reaches urlunsplit as `{l.text()}`")
+            return ok, f"hostname as `{l.text()}`" + (": " if ok else ": expected exactly one unquoter (the IDNA decoder) on every path; ") + fact
         if len(l.ops) != 1 or l.ops[0].kind != "call":
             return False, f"parts.{attr} reaches urlunsplit as `{l.text()}`: expected exactly one unquoter"
         tgt = l.ops[0].target or ""
         mn, _, nm = tgt.rpartition(".")
-        if attr == "hostname":
-            if mn == m.name and nm in m.functions:
-                idna_fq.append(nm)
-                return True, f"hostname through {nm}"
-            return False, f"hostname through `{tgt}`, not a decoder function of {m.name}"
         if mn == m.name and nm in unq:
             prev = use.setdefault(attr, nm)
             if prev != nm:
@@ -1395,7 +1496,11 @@ def _r15_2(ctx: Ctx, folder: Folder, i2u: FuncInfo) -> None:
         if attr == "hostname":
             kinds = [(o.kind, codec_kind(o.codec)) for o in l.ops]
             ok = kinds == [("encode", "idna"), ("decode", "ASCII")]
-            return ok, f"hostname as `{l.text()}`" + ("" if ok else ": expected encode('idna').decode('ascii')")
+            if not ok:
+                # not the direct shape: decided on what iri_to_uri as a whole makes of representative host names
+                ok, fact = _whole_verdict(_whole_host_eval(ctx, i2u, (), False))
+                return ok, f"hostname as `{l.text()}`" + (": " if ok else ": expected encode('idna').decode('ascii') on every path; ") + fact
+            return ok, f"hostname as `{l.text()}`"
         if len(l.ops) != 1 or l.ops[0].kind != "quote":
             return False, f"parts.{attr} reaches urlunsplit as `{l.text()}`: expected exactly one quote()"
         quotes[(id(l.ops[0].node), attr)] = (l.ops[0].node, attr, l.ops[0].sc)
@@ -2165,7 +2270,25 @@ def _caller_side(m, nm: str, decoder: ast.AST) -> str | None:
 def _r15_9(ctx: Ctx, u2i: FuncInfo) -> None:
     repo = ctx.repo
     m = u2i.module
+    unq_names = sorted(n for n, v in m.assigns.items() if len(v) == 1 and isinstance(v[0], ast.Call) and dotted(v[0].func) and dotted(v[0].func).rsplit(".", 1)[-1] == "_make_unquote_part")
+
+    def whole(nm: str, where: FuncInfo, why: str) -> None:
+        """the clause judged on uri_to_iri as a whole: the work is shared between the function and its decoder"""
+        res = _whole_host_eval(ctx, u2i, unq_names, True)
+        via = f" (through uri_to_iri as a whole: {why})"
+        texts = {"inv": (f"{nm} undoes the IDNA host step at every label position", f"{nm} inverts idna per label", "every encoded label is decoded"),
+                 "kept": (f"{nm} leaves a label that is not valid punycode as it is and decodes the others", f"{nm} keeps invalid label", f"`{_BAD_ACE_LABEL}` stays next to decoded labels at every position"),
+                 "plain": (f"{nm} returns plain ASCII names and IP literals unchanged", f"{nm} ascii unchanged", "unchanged"),
+                 "done": (f"{nm} returns an already decoded name unchanged (uri_to_iri is a fixpoint on IRIs)", f"{nm} decoded unchanged", "unchanged")}
+        for g, (inst, key, good) in texts.items():
+            badl, n = res[g]
+            ctx.ob("R15.9", inst, not badl, (f"{n} names evaluated: {good}" if not badl else f"{len(badl)} of {n} names: " + "; ".join(badl[:3])) + via, where, where.node, key)
+
     if not _HOST_DECODERS:
+        if _HOST_WHOLE:
+            whole("uri_to_iri", u2i, _HOST_WHOLE[0])
+            ctx.floor("R15.9", "host names evaluated through the host decoder", sum(k for _, k in _whole_host_eval(ctx, u2i, unq_names, True).values()), 80)
+            return
         ctx.error("R15.9: no host decoder of urls.py found on uri_to_iri's hostname route (see R15.3): nothing to evaluate")
         return
     idn, bad_names = _host_families()
@@ -2215,8 +2338,10 @@ def _r15_9(ctx: Ctx, u2i: FuncInfo) -> None:
         if inv or kept or plain or done:
             shared = _caller_side(m, nm, fi.node)
             if shared is not None:
-                ctx.error(f"R15.9: {nm} alone does not satisfy the clause ({(inv or kept or plain or done)[0]}), but {shared}: the work is shared between caller and decoder, which is not followed")
-                return
+                # the caller tests the name / catches what the decoder raises: the clause is about both together
+                whole(nm, fi, shared)
+                total += sum(k for _, k in _whole_host_eval(ctx, u2i, unq_names, True).values())
+                continue
 
         def fact(badl: list[str], n: int, good: str) -> str:
             return f"{n} names evaluated: {good}" if not badl else f"{len(badl)} of {n} names: " + "; ".join(badl[:3])
